@@ -170,3 +170,70 @@ func VerifC09_CancelDrain() {
 		verifAssert(false, "after cancellation and the last sender's Done the tracer is done")
 	}
 }
+
+// a subscriber that joined before anything was sent, with the given buffer, read by a consumer that may lag arbitrarily:
+// it must still see every trace exactly once and each sender's traces in program order
+func verifC09Slow(senders, per, buffer int) {
+	ctx := context.Background()
+	t := NewTracer(ctx)
+	ch := t.SubscribeChannel(make(chan ITrace, buffer))
+	var got [8]int64
+	var n int64
+	total := senders * per
+	for s := 0; s < senders; s++ {
+		go func() {
+			for q := 0; q < per; q++ {
+				t.Send(verifTrace{sender: s, seq: q})
+			}
+		}()
+	}
+	go func() {
+		for i := 0; i < total; i++ {
+			verifYield() // the consumer is busy elsewhere for an arbitrary time before it takes the next trace
+			tr := <-ch
+			got[i] = int64(verifTag(tr))
+			verifAdd(&n, 1)
+		}
+	}()
+	verifQuiesce()
+	verifReach("quiescent")
+	verifAssert(verifGet(&n) == int64(total), "a subscriber that stays subscribed receives every trace exactly once")
+	var pos [16]int64
+	for i := range pos {
+		pos[i] = -1
+	}
+	for i := 0; i < total; i++ {
+		if int64(i) < verifGet(&n) {
+			verifAssert(pos[got[i]] == -1, "no trace is delivered twice")
+			pos[got[i]] = int64(i)
+		}
+	}
+	for s := 0; s < senders; s++ {
+		for q := 1; q < per; q++ {
+			verifAssert(pos[s*4+q-1] >= 0 && pos[s*4+q] > pos[s*4+q-1], "each sender's program order is preserved")
+		}
+	}
+}
+
+func VerifC09_Slow_S1x2_B0() { verifC09Slow(1, 2, 0) }
+func VerifC09_Slow_S1x2_B1() { verifC09Slow(1, 2, 1) }
+func VerifC09_Slow_S1x3_B1() { verifC09Slow(1, 3, 1) }
+
+// cancellation first, then a registered sender sends one more trace and reports Done: the trace must still be delivered
+func VerifC09_SendAfterCancel() {
+	ctx, cancel := context.WithCancel(context.Background())
+	t := NewTracer(ctx)
+	ref := t.SubscribeChannel(make(chan ITrace, 4))
+	h := t.RegisterSender()
+	cancel()
+	var sent int64
+	go func() {
+		t.Send(verifTrace{sender: 0, seq: 0})
+		verifAdd(&sent, 1)
+		h.Done()
+	}()
+	verifQuiesce()
+	verifReach("quiescent")
+	verifAssert(verifGet(&sent) == 1, "every Send returns (no deadlock while the remaining subscribers keep consuming)")
+	verifAssert(len(ref) == 1, "traces sent by a registered sender before it reports Done are delivered even after cancellation")
+}
